@@ -104,8 +104,12 @@ func (g *gen) leaf(allowUnion bool, self *Decl) *TE {
 			}
 		case 11:
 			if g.hasSub && len(g.subTypes) > 0 {
+				name := pick(g.rng, g.subTypes)
+				if name == "SubU" && !allowUnion {
+					continue // anonymous containers of unions are refused by gounions
+				}
 				g.c.AddFeat("subpackage-type")
-				return Ref("sub", pick(g.rng, g.subTypes))
+				return Ref("sub", name)
 			}
 		}
 	}
